@@ -223,13 +223,13 @@ fn run_case(c: &Case) -> Result<RunOut, (String, String)> {
 }
 
 fn make_case(r: &mut Rng, i: usize, thorough: bool) -> Case {
-    let quality = if r.chance(1, 2) { 2 } else { 3 };
+    let kind = if i % 16 == (i / 16) % 16 { 3 } else { i % 3 };
+    let quality = if kind == 0 { if r.chance(3, 4) { 2 } else { 3 } } else if r.chance(1, 2) { 2 } else { 3 };
     let lgwin = *r.pick(&[10u32, 11, 12, 14, 16, 17, 18, 20, 22, 24]);
     let large = r.chance(1, 10);
     let catable = r.chance(1, 6);
     let appendable = catable || r.chance(1, 6);
     let magic = r.chance(1, 8);
-    let kind = i % 4;
     // kind 0: small text with dictionary words (dictionary on); 1: small generated; 2: medium generated; 3: multi-block generated
     let (input_tok, input, use_dict) = match kind {
         0 => {
@@ -242,11 +242,11 @@ fn make_case(r: &mut Rng, i: usize, thorough: bool) -> Case {
             (format!("g{}.{}.{}.{}", seed, len, alpha, rep), gen_text(seed, len as usize, alpha, rep), false)
         }
         2 => {
-            let (seed, len, alpha, rep) = (r.below(1 << 30), r.range(2000, 16384), r.range(2, 200), r.range(0, 30));
+            let (seed, len, alpha, rep) = (r.below(1 << 30), r.range(2000, 6000), r.range(2, 200), r.range(0, 30));
             (format!("g{}.{}.{}.{}", seed, len, alpha, rep), gen_text(seed, len as usize, alpha, rep), false)
         }
         _ => {
-            let hi = if thorough { 120000 } else { 50000 };
+            let hi = if thorough { 40000 } else { 19000 };
             let (seed, len, alpha, rep) = (r.below(1 << 30), r.range(16385, hi), r.range(2, 160), r.range(0, 25));
             (format!("g{}.{}.{}.{}", seed, len, alpha, rep), gen_text(seed, len as usize, alpha, rep), false)
         }
@@ -270,7 +270,7 @@ fn make_case(r: &mut Rng, i: usize, thorough: bool) -> Case {
 
 pub fn run_cmd(args: &Args) {
     let thorough = args.tier == "thorough";
-    let n = if thorough { 1200 } else { 144 };
+    let n = if thorough { 1200 } else { 96 };
     let seed = args.seed;
     let results = par_tasks(n, move |i| {
         let mut r = Rng::new(seed ^ 0xe2e0_0000 ^ ((i as u64) << 20));
